@@ -10,7 +10,7 @@
 From Boltons Require Import Lib.Prelude.
 Open Scope N_scope.
 
-Definition str := list N.
+Notation str := (list N) (only parsing).
 
 Record cc := mkCC {
   is_sp : N -> bool;     (* str.isspace(c): what strip()/lstrip()/rstrip() remove *)
@@ -160,3 +160,10 @@ Definition frame_eqb (a b : frame) : bool :=
 Definition tb_eqb (a b : tb) : bool :=
   list_eqb frame_eqb (t_frames a) (t_frames b) && str_eqb (t_type a) (t_type b) &&
   str_eqb (t_msg a) (t_msg b).
+
+(* ---- a live exception as the interpreter reports it ------------------------------ *)
+(* One traceback entry as traceback.extract_tb reports it: file, line number,
+   code name, and the raw text of that line from linecache (empty if unavailable). *)
+Record live_frame := mkLive { lv_file : str; lv_lineno : N; lv_name : str; lv_raw : str }.
+(* the exception: __module__, __qualname__, __name__ of its type and str(value) *)
+Record live_exc := mkExc { ex_module : str; ex_qualname : str; ex_name : str; ex_str : str }.
